@@ -165,7 +165,11 @@ def run_history(c08_exe, mx_exe, optname, ops, tag, universe):
                 else:
                     run.compact()
             elif kind == "racedrop":
-                run.racedrop(op[1])
+                # compaction after compaction on a second thread until one of them pins an sst that
+                # only reader op[1]'s snapshot holds (then the release is placed inside that pin)
+                for _ in range(op[2] if len(op) > 2 else 12):
+                    if not run.racedrop(op[1]):
+                        break
             elif kind == "compact2":
                 for _ in range(6):
                     if not run.compact2(hookdrop=op[1]):
